@@ -348,7 +348,25 @@ func (p *player) run() {
 	p.rec.Put(M{"e": "Scenario", "name": p.sc.Name, "conf": hdr, "kinds": kinds, "t": 0})
 	p.node = p.buildNode()
 	baseline := gomavlibGoroutines()
-	err := p.node.Initialize()
+	var err error
+	if c.LegacyCtor {
+		b := p.node
+		var n2 *gomavlib.Node
+		n2, err = gomavlib.NewNode(gomavlib.NodeConf{ //nolint:staticcheck
+			Endpoints: b.Endpoints, Dialect: b.Dialect, InKey: b.InKey, OutVersion: b.OutVersion, OutSystemID: b.OutSystemID,
+			OutComponentID: b.OutComponentID, OutKey: b.OutKey, HeartbeatDisable: b.HeartbeatDisable,
+			HeartbeatPeriod: b.HeartbeatPeriod, HeartbeatSystemType: b.HeartbeatSystemType,
+			HeartbeatAutopilotType: b.HeartbeatAutopilotType, StreamRequestEnable: b.StreamRequestEnable,
+			StreamRequestFrequency: b.StreamRequestFrequency, ReadTimeout: b.ReadTimeout, WriteTimeout: b.WriteTimeout,
+			IdleTimeout: b.IdleTimeout})
+		if n2 != nil {
+			p.node = n2
+		}
+		p.nodeA.Store(p.node)
+	} else {
+		p.nodeA.Store(p.node)
+		err = p.node.Initialize()
+	}
 	p.rec.Put(M{"e": "Init", "ok": err == nil, "err": fmt.Sprint(err), "t": p.ms()})
 	if err != nil {
 		// a failed initialization must leave nothing behind
